@@ -90,6 +90,7 @@ structure Field where
   omitC : Const         -- the constant an omitIfDefault save compares with
   rej : List (Op × Const)  -- Validate() rejects when `value op const` (simple, unguarded conjuncts only)
   codec : CodecName := .none
+  dest : String := ""         -- Config field path the value is loaded into
   hiddenNested : Bool := false  -- a hidden:"true" tag below the top level of the JSON struct (DisplayJSON does not honour it)
   deriving Repr
 
@@ -292,6 +293,111 @@ def rejected (rej : List (Op × Const)) (v : Int) : Bool :=
   rej.any fun (o, c) => match c.num? with
     | some b => o.holds v b
     | Option.none => false
+
+
+/-! ## Validate() of a section as a conjunction over the whole Config
+
+The translator (`harness/common/c15_validate.go`) reads every `Validate()` as a list of conjuncts
+`(guard?, cond)`: the configuration is **rejected** when some conjunct's guard holds (or is absent) and its
+condition holds.  Conditions compare Config fields with constants *and with each other* (`low_water >
+high_water`, the replication factor pair), take `len(x)`, `x.String()`, nil-ness, and combine with `&& || !`;
+helper functions (`isReplicationFactorValid`, `validateLibp2p`) are inlined.  `opaque`: not expressible
+(`hraft.ValidateConfig`, `MatchesPrivateKey`); `opaqueConst`: not expressible but reading nothing a JSON key can
+change (`isRPCPolicyValid(cfg.RPCPolicy)`) — constant over all configuration files, observed not to fire by the
+`default` case of every run.  Evaluation is three-valued. -/
+
+inductive Val
+  | int (i : Int) | str (s : String) | bool (b : Bool) | nil | nonnil
+  | frac (lo hi : Int)   -- a float64 x as (⌊x·10⁶⌋, ⌈x·10⁶⌉)
+  | unknown
+  deriving DecidableEq, Repr
+
+inductive Tm | fld (n : String) | len (n : String) | strOf (n : String) | cst (c : Const)
+  deriving DecidableEq, Repr
+
+inductive Cond
+  | cmp (a : Tm) (o : Op) (b : Tm)
+  | and (a b : Cond) | or (a b : Cond) | not (a : Cond)
+  | tru (n : String)
+  | opaque | opaqueConst
+  deriving DecidableEq, Repr
+
+structure Conj where
+  guard : Option Cond
+  cond : Cond
+  deriving DecidableEq, Repr
+
+abbrev Env := List (String × Val)
+
+def Env.get (e : Env) (k : String) : Val := ((e.find? (·.1 == k)).map (·.2)).getD .unknown
+
+def Tm.eval (e : Env) : Tm → Val
+  | .fld n => e.get ("f:" ++ n)
+  | .len n => e.get ("l:" ++ n)
+  | .strOf n => e.get ("s:" ++ n)
+  | .cst (.int i) => .int i
+  | .cst (.dur i) => .int i
+  | .cst (.str s) => .str s
+  | .cst (.bool b) => .bool b
+  | .cst .nil => .nil
+  | .cst _ => .unknown
+
+def fracScale : Int := 1000000
+
+def cmpVal (o : Op) : Val → Val → Option Bool
+  | .int a, .int b => some (o.holds a b)
+  | .frac lo hi, .int b =>
+    let n := b * fracScale
+    some (match o with
+      | .lt => lo < n | .ge => lo ≥ n | .le => hi ≤ n | .gt => hi > n
+      | .eq => lo == n && hi == n | .ne => !(lo == n && hi == n))
+  | .str a, .str b => (match o with | .eq => some (a == b) | .ne => some (a != b) | _ => Option.none)
+  | .nil, .nil => (match o with | .eq => some true | .ne => some false | _ => Option.none)
+  | .nonnil, .nil => (match o with | .eq => some false | .ne => some true | _ => Option.none)
+  | _, _ => Option.none
+
+def and3 : Option Bool → Option Bool → Option Bool
+  | some false, _ => some false
+  | _, some false => some false
+  | some true, some true => some true
+  | _, _ => Option.none
+
+def or3 : Option Bool → Option Bool → Option Bool
+  | some true, _ => some true
+  | _, some true => some true
+  | some false, some false => some false
+  | _, _ => Option.none
+
+def Cond.eval (e : Env) : Cond → Option Bool
+  | .cmp a o b => cmpVal o (a.eval e) (b.eval e)
+  | .and a b => and3 (a.eval e) (b.eval e)
+  | .or a b => or3 (a.eval e) (b.eval e)
+  | .not a => (a.eval e).map (!·)
+  | .tru n => (match e.get ("f:" ++ n) with | .bool b => some b | _ => Option.none)
+  | .opaque => Option.none
+  | .opaqueConst => some false
+
+/-- does the conjunct reject the configuration? -/
+def Conj.fires (e : Env) (c : Conj) : Option Bool :=
+  match c.guard with
+  | Option.none => c.cond.eval e
+  | some g => and3 (g.eval e) (c.cond.eval e)
+
+inductive Verdict | accept | reject | unknown
+  deriving DecidableEq, Repr
+
+/-- `Validate()`: rejected as soon as one conjunct fires; accepted when every conjunct is known not to -/
+def validate (e : Env) (cs : List Conj) : Verdict :=
+  if cs.any (fun c => c.fires e == some true) then .reject
+  else if cs.all (fun c => c.fires e == some false) then .accept
+  else .unknown
+
+/-- `LoadJSON` of a section: the apply stage either fails (a parse error: `none`) or leaves a Config, whose
+last step is `return cfg.Validate()` (`Section.loadEndsWithValidate`, re-read from the sources on every run) -/
+def loadSection (applied : Option Env) (cs : List Conj) : Option Env :=
+  match applied with
+  | Option.none => Option.none
+  | some e => if validate e cs == .reject then Option.none else some e
 
 /-! ## which kind pairs keep a setting -/
 
